@@ -16,7 +16,8 @@ def _files(unit, rng, any_rpc=False):
     if unit == "leader":
         n_att = int(rng.integers(1, 6))
         att_len = int(rng.choice([16 + 120 * n_att, 16384, 16 + 120 * n_att + int(rng.integers(1, 300))]))
-        data = synth.leader_file(n_att=n_att, n_chan=int(rng.integers(1, 17)), mapproj=int(rng.integers(0, 2)),
+        pdate = [(1, 1), (12, 31), (2, 28), (int(rng.integers(1, 13)), int(rng.integers(1, 29)))][int(rng.integers(0, 4))]
+        data = synth.leader_file(platform_date=pdate, n_att=n_att, n_chan=int(rng.integers(1, 17)), mapproj=int(rng.integers(0, 2)),
                                  fac_len=tuple(int(x) for x in rng.integers(66, 400, 4)), year=int(rng.integers(2014, 2050)),
                                  att_doy=int(rng.integers(1, 366)), att_ms=int(rng.integers(0, 86399000)), rng=rng, att_len=att_len)
 
@@ -50,8 +51,10 @@ def _files(unit, rng, any_rpc=False):
                "prefix_suffix_data_locators.number_of_burst_data": blank(),
                "prefix_suffix_data_locators.number_of_lines_per_burst": blank(),
                "scansar_burst_data_information.number_of_overlap_lines_with_adjacent_bursts": blank()}
+        order = list(rng.permutation(nl)) if rng.random() < 0.5 else list(range(nl))[::-1]
         data = synth.image_file(px, level=level, year=int(rng.integers(2014, 2050)), doy=int(rng.integers(1, 366)),
-                                ms0=int(rng.integers(0, 86000000)), extra_hdr=hdr, rng=rng)
+                                ms0=int(rng.integers(0, 86000000)), extra_hdr=hdr, rng=rng,
+                                extra_line=lambda i: {"sar_image_data_line_number": int(order[i]) + 1})
         rpc = int(rng.integers(1, nl + 3)) if any_rpc else nl + int(rng.integers(0, 3))
 
         def real():
